@@ -80,7 +80,7 @@ def r_C12b(root):
     if inst < 8: raise AnalysisError("RREL printers: only %d emitted literals found" % inst)
     # ---- C12.e
     pats = _string_value_patterns(root); nfas = [rx.Nfa(p) for p in pats]
-    vis = find(t, "RRELVisitor.visit_string_value"); rep = find(t, "RRELNavigation.__repr__")
+    vis = find_i(root, R, "RRELVisitor.visit_string_value"); rep = find_i(root, R, "RRELNavigation.__repr__")
     words = []
     for n in range(2, 6):
         for tup in itertools.product("a\\'\"", repeat=n):
